@@ -14,11 +14,12 @@ from harness.plans import plan
 ID = "C11"
 ENUM = {"flip_enum", "flip_enum_parallel", "categorical_enum_parallel"}
 DISC_SF = {"flip_reinforce", "flip_mvd"}
-CONT_REPARAM = {"normal_reparam", "uniform_reparam", "mvn_diag_reparam", "mvn_reparam"}
-CONT_SF = {"normal_reinforce", "uniform_reinforce", "mvn_reinforce"}
+CONT_REPARAM = {"normal_reparam", "uniform_reparam", "mvn_diag_reparam", "mvn_reparam", "normal_reparam_bs", "normal_reparam_bl"}
+CONT_SF = {"normal_reinforce", "uniform_reinforce", "mvn_reinforce", "normal_reinforce_bs"}
 INF = {"geometric_reinforce"}
 BOOL = {"flip_enum", "flip_enum_parallel", "flip_reinforce", "flip_mvd"}
-VEC = {"mvn_diag_reparam", "mvn_reparam", "mvn_reinforce"}
+VEC = {"mvn_diag_reparam", "mvn_reparam", "mvn_reinforce", "normal_reparam_bs", "normal_reparam_bl", "normal_reinforce_bs"}
+# batched scalar-family sites: *_bs = scalar location, vector scale; *_bl = vector location, scalar scale
 COV = [[1.0, 0.3], [0.3, 0.7]]
 
 
@@ -45,7 +46,7 @@ def ev(e, th, vals, xp):
     if k == "num":  # numeric view of a site value (bool/int -> float, vector -> weighted sum)
         v = vals[e[1]]
         if np.ndim(v) > 0 or (hasattr(v, "ndim") and v.ndim > 0):
-            return v[0] - 0.5 * v[1]
+            return v[0] * v[1] - 0.5 * v[1]  # couples the coordinates non-linearly (shared noise across lanes shows up)
         return xp.asarray(v, dtype=xp.float32 if xp is not np else np.float64)
     if k == "where":  # discrete site value selects between two expressions (plain arithmetic selection)
         sel = ev(["num", e[1]], th, vals, xp)
@@ -108,8 +109,13 @@ def expect(prog, th, upto=None, fixed=None):
             hi = lo + pos_of(ev(pe[1], th, vals, np), np)
             return sum(0.5 * w * rec(j + 1, vals + [0.5 * (hi - lo) * x + 0.5 * (hi + lo)]) for x, w in zip(*GL))
         if kind in VEC:
-            loc = np.array([ev(pe[0], th, vals, np), ev(pe[1], th, vals, np)], dtype=np.float64)
-            if kind == "mvn_diag_reparam":
+            loc = np.array([ev(pe[0], th, vals, np), ev(pe[1], th, vals, np) if kind not in ("normal_reparam_bs", "normal_reinforce_bs") else 0.0], dtype=np.float64)
+            if kind in ("normal_reparam_bs", "normal_reinforce_bs"):
+                loc = np.array([loc[0], loc[0]])
+                L = np.diag([pos_of(ev(pe[1], th, vals, np), np), pos_of(ev(pe[2], th, vals, np), np)])
+            elif kind == "normal_reparam_bl":
+                L = np.eye(2) * pos_of(ev(pe[2], th, vals, np), np)
+            elif kind == "mvn_diag_reparam":
                 L = np.diag([pos_of(ev(pe[2], th, vals, np), np), 0.8])
             else:
                 L = np.linalg.cholesky(np.asarray(COV))
@@ -164,6 +170,11 @@ def build(prog):
             elif kind in ("uniform_reparam", "uniform_reinforce"):
                 lo = ev(pe[0], th, vals, jnp) * 1.0
                 v = P[kind](lo, lo + pos_of(ev(pe[1], th, vals, jnp), jnp))
+            elif kind in ("normal_reparam_bs", "normal_reinforce_bs"):
+                base = A.normal_reparam if kind == "normal_reparam_bs" else A.normal_reinforce
+                v = base(ev(pe[0], th, vals, jnp) * 1.0, jnp.stack([pos_of(ev(pe[1], th, vals, jnp), jnp), pos_of(ev(pe[2], th, vals, jnp), jnp)]))
+            elif kind == "normal_reparam_bl":
+                v = A.normal_reparam(jnp.stack([ev(pe[0], th, vals, jnp) * 1.0, ev(pe[1], th, vals, jnp) * 1.0]), pos_of(ev(pe[2], th, vals, jnp), jnp))
             elif kind == "mvn_diag_reparam":
                 loc = jnp.stack([ev(pe[0], th, vals, jnp) * 1.0, ev(pe[1], th, vals, jnp) * 1.0])
                 v = P[kind](loc, jnp.stack([pos_of(ev(pe[2], th, vals, jnp), jnp), jnp.asarray(0.8)]))
@@ -374,7 +385,7 @@ def cases():
         nth = draw(st.integers(1, 2))
         n_sites = draw(st.integers(1, 3))
         flavour = draw(st.sampled_from(["enum", "enum", "mixed", "mixed", "reparam", "sf"]))
-        pool = {"enum": sorted(ENUM), "reparam": ["normal_reparam", "uniform_reparam", "normal_reparam"], "sf": sorted(DISC_SF | CONT_SF - {"mvn_reinforce"}),
+        pool = {"enum": sorted(ENUM), "reparam": ["normal_reparam", "uniform_reparam", "normal_reparam", "normal_reparam_bs", "normal_reparam_bl"], "sf": sorted(DISC_SF | CONT_SF - {"mvn_reinforce"}),
                 "mixed": sorted(ENUM | DISC_SF | CONT_REPARAM | CONT_SF | INF)}[flavour]
         sites, n_cont = [], 0
 
@@ -447,7 +458,7 @@ def one_case(ctx, case):
     nt = len(fams) >= 2 or dep or case["prog"]["ret"][0] in ("cond", "where")
     cls = [f"C11.site_{k}" for k in set(kinds)] + [f"C11.mode_{case['mode']}"] + (["C11.composition_of_different_estimator_kinds"] if len(fams) >= 2 else []) + \
           (["C11.param_depends_on_earlier_draw"] if dep else []) + ([f"C11.ret_{case['prog']['ret'][0]}"] if case["prog"]["ret"][0] in ("cond", "where") else []) + \
-          (["C11.all_enum_exact"] if info["all_enum"] else ["C11.stochastic_calibrated"])
+          (["C11.all_enum_exact"] if info["all_enum"] else ["C11.stochastic_calibrated"]) + (["C11.batched_scalar_family_site"] if any(k.endswith(("_bs", "_bl")) for k in kinds) else [])
     ctx.case(case, nt, cls, sample={**case, "info": {k: v for k, v in info.items() if k != "sites"}})
     for b, w in fails:
         ctx.fail(b, w, case)
